@@ -18,6 +18,7 @@ pub mod bitsrep;
 pub mod codec;
 pub mod cursor;
 pub mod pack;
+pub mod arith;
 
 // ------------------------------------------------------------------ PRNG (splitmix64)
 #[derive(Clone)]
